@@ -173,6 +173,10 @@ def check_interp_curve(case, ctx):
     big = _extent(Q)
     ctx.label("data-in-tiny-or-huge-units", big < 1e-3 or big > 1e4)
     P, U = [list(x) for x in crv.ctrlpts], list(crv.knotvector)
+    if not all(len(q_) == len(Q[0]) for q_ in P):
+        ctx.check(False, "malformed-control-points",
+                  "the fitted curve has control points of %r coordinates for %d-dimensional data" % (sorted(set(len(q_) for q_ in P)), len(Q[0])))
+        return
     for k, (u, q) in enumerate(zip(uk, Q)):
         got = crv.evaluate_single(u)
         ctx.check(all(abs(a - b) <= 1e-7 * big for a, b in zip(got, q)), "interpolation",
@@ -194,6 +198,8 @@ def check_interp_curve(case, ctx):
 def _interp_surf_cases(draw, tier):
     hi = 9 if tier == "thorough" else 6
     nu, nv = draw(st.integers(3, hi)), draw(st.integers(3, hi))
+    if draw(st.integers(0, 39)) == 0:
+        nu, nv = draw(st.sampled_from([(16, 17), (17, 16), (18, 15), (13, 20)]))          # nets of more than 256 control points
     return {"nu": nu, "nv": nv, "pts": draw(_grid(nu, nv)), "pu": draw(st.integers(1, min(4, nu - 1))),
             "pv": draw(st.integers(1, min(4, nv - 1))), "centripetal": draw(st.booleans())}
 
@@ -280,6 +286,10 @@ def check_approx_curve(case, ctx):
     big = _extent(Q)
     ctx.label("data-in-tiny-or-huge-units", big < 1e-3 or big > 1e4)
     P, U = [list(x) for x in crv.ctrlpts], list(crv.knotvector)
+    if not all(len(q_) == len(Q[0]) for q_ in P):
+        ctx.check(False, "malformed-control-points",
+                  "the fitted curve has control points of %r coordinates for %d-dimensional data" % (sorted(set(len(q_) for q_ in P)), len(Q[0])))
+        return
     ctx.check(len(U) == h + p + 1 and all(a <= b for a, b in zip(U, U[1:])) and U[p] == 0.0 and U[h] == 1.0, "knot-vector-shape", "knot vector %r" % U)
     ctx.check(all(abs(a - b) <= 1e-12 * big for a, b in zip(crv.evaluate_single(0.0), Q[0])) and
               all(abs(a - b) <= 1e-12 * big for a, b in zip(crv.evaluate_single(1.0), Q[-1])), "end-points",
